@@ -37,7 +37,7 @@ META = {
     },
 }
 CASES = {'quick': 1200, 'thorough': 60000}
-SECONDS = {'quick': 60, 'thorough': 1500}
+SECONDS = {'quick': 60, 'thorough': 600}
 
 
 def typed_nodes(g):
